@@ -21,13 +21,19 @@ PROPS["C18"] = dict(
     level_note='Not decided: the numeric value and monotonicity of get_proven_security (f64 log2/powf/sqrt have no faithful model in CBMC; they are stubbed to arbitrary floats); the OptionSet arm of validate.',
     explanation=MIX)
 PROPS["C19"] = dict(
-    level="other", claimed=True,
-    level_text="State-transition contracts of DefaultRandomCoin (new, reseed, next, draw, draw_integers, check_leading_zeros) over "
-               "symbolic seeds/counters/nonces with a stub hasher, and validity of drawn elements (from_random_bytes of the three "
-               "base fields, and of the quadratic / cubic extensions of the 64-bit field, accepts exactly canonical encodings).",
-    level_note="Bounded in the requested count of draw_integers (<= 3) and the rejection loop of draw (<= 2 rejections). "
-               "Trusted: parametricity of the coin in its hasher (StubHasher double), determinism of safe Rust. Extension-field "
-               "from_random_bytes of the 62- and 128-bit fields is not under contract.",
+    level="other", claimed=True, verus=True,
+    level_text="Verus (unit coinv, bodies cut out of /repo, hasher abstract - uninterpreted merge / merge_with_int / hash_elements): "
+               "the state machine of DefaultRandomCoin for every hasher, seed, counter and nonce and for EVERY requested count: new, "
+               "reseed, next, check_leading_zeros; draw_integers returns exactly n values below the domain size, value i derived from "
+               "merge_with_int(seed', i + 1), and leaves counter == n; draw returns the first accepted of at most 1000 candidates and "
+               "advances the counter by the candidates tried. Kani on the real code with a stub hasher: the same contracts bit-precisely "
+               "(byte slicing, little-endian conversion, masks) with the count bounded, with counterexamples; validity of drawn elements "
+               "(from_random_bytes of the three base fields, and of the quadratic / cubic extensions of the 64-bit field, accepts exactly "
+               "canonical encodings); the integer encoding absorbed by merge_with_int of the three Rescue hashers is injective.",
+    level_note="The Kani harnesses are bounded in the requested count of draw_integers (<= 3) and the rejection loop of draw (<= 2 "
+               "rejections); the Verus unit is not, but replaces three byte-slicing expressions by named prelude functions (listed "
+               "under coverage.extraction). Trusted: determinism of safe Rust. Extension-field from_random_bytes of the 62- and 128-bit "
+               "fields is not under contract.",
     explanation=MIX)
 
 PROPS["C10"] = dict(
@@ -72,7 +78,7 @@ PROPS["C05"] = dict(
 
 PROPS["C04"] = dict(
     level="other", claimed=True,
-    level_text="Kani on the real channel code with doubles (Air, hasher, coin): every ProverChannel send / commit records the message in the proof and reseeds the coin with exactly that message; the seed is hash(context || public inputs); query positions come from draw_integers with the ground nonce; FriVerifier::new reseeds-then-draws per commitment in order; the remainder polynomial carried in the proof is the one whose commitment was absorbed (also for layer-less proofs); the coin's own state-transition contract is C19's. Native bounded stand-in: the real prover and verifier run with a recording coin and both operation sequences are compared with the transcript the protocol requires (absorbed values recomputed from the proof bytes, GKR randomness before auxiliary randomness, every challenge after the messages that precede it, identical challenge values), on single-segment, auxiliary and Lagrange-kernel traces over three extension degrees and two hashers.",
+    level_text="Kani on the real channel code with doubles (Air, hasher, coin): every ProverChannel send / commit records the message in the proof and reseeds the coin with exactly that message; the seed is hash(context || public inputs); query positions come from draw_integers with the ground nonce; FriVerifier::new reseeds-then-draws per commitment in order; the remainder polynomial carried in the proof is the one whose commitment was absorbed (also for layer-less proofs); the seed elements bind the proof context (contexts that differ only in their trace metadata are absorbed differently; bounded); Verus (unit coinv): the coin's state machine for every hasher; the integer absorbed by merge_with_int (grinding nonce) is injective for the three Rescue hashers. Native bounded stand-in: the real prover and verifier run with a recording coin and both operation sequences are compared with the transcript the protocol requires (absorbed values recomputed from the proof bytes, GKR randomness before auxiliary randomness, every challenge after the messages that precede it, identical challenge values), on single-segment, auxiliary and Lagrange-kernel traces over three extension degrees and two hashers.",
     level_note="Prover::generate_proof and perform_verification are generic over user types and out of both verifiers' reach: their order of coin operations is observed on the stand-in's grid, not proved. One asymmetry is tolerated: the verifier draws an unused folding challenge after the FRI remainder commitment (DESIGN.md 9.1).",
     explanation=MIX)
 PROPS["C03"] = dict(
@@ -87,23 +93,28 @@ PROPS["C20"] = dict(
                "the result covers base and extension fields): polynom::add / sub / mul / mul_by_scalar return, for every length and "
                "every coefficient value, exactly the coefficient-wise sum / difference, the schoolbook convolution and the scaled "
                "coefficients; degree_of returns the index of the last non-zero coefficient; fill_power_series (behind get_power_series*) "
-               "writes start * base^i. Everything else - eval, division (long and synthetic), interpolation, expansion from roots, "
-               "in-place accumulation, batch inversion - is written with iterator adapters / mem::swap / macros that the installed Verus "
+               "writes start * base^i. polynom::div (long division), against five field laws stated as assumptions (additive "
+               "monoid laws, x - y + y == x, y * (x / y) == x): quotient * divisor + remainder == dividend coefficient by coefficient "
+               "with the remainder below the divisor degree, for every dividend and every non-zero divisor. Everything else - eval, "
+               "synthetic division, interpolation, expansion from roots, in-place accumulation, batch inversion - is written with iterator adapters / mem::swap / macros that the installed Verus "
                "rejects and rests on the bounded stand-in (native execution against a naive reference written in the check).",
     level_note="The stand-in part is bounded as stated in coverage.native_bounded_standins and proves nothing. That E's operations are "
                "those of a field is C07's / C08's. polynom::mul is proved for non-empty operands (it underflows on two empty ones).",
     explanation=MIX)
 
 PROPS["C09"] = dict(
-    level="other", claimed=True,
-    technique="bounded stand-in only: the real functions executed natively over an enumerated space and compared with a reference written in the check; no deductive obligation could be generated for these functions (see level_text), so nothing is counted as proved",
-    level_text="Bounded stand-in only (native execution of the real transforms against direct evaluation written in the check): "
-               "FFT evaluation / interpolation with offsets and blowups, degree inference, and the column-batched and segmented "
-               "low-degree extension of matrices agree with direct polynomial evaluation on the enumerated space. No deductive "
-               "contract: algebraic identities over symbolic field values are beyond CBMC, and the bodies are generic over field "
-               "and batch size with iterator adapters the installed Verus rejects.",
-    level_note="Bounded as stated in coverage.native_bounded_standins; nothing is proved for all sizes. The multi-threaded "
-               "variants (`concurrent` feature) are not built.",
+    level="other", claimed=True, verus=True,
+    level_text="Kani (complete, loop-free, every power-of-two size 2^0..2^63): permute_index is the bit reversal of its argument, stays below "
+               "the size, is an involution and injective. Verus (body cut out of /repo, abstract element type): the in-place permutation "
+               "FftInputs::permute that ends every evaluate_poly* / interpolate_poly* call moves, for every power-of-two length, the "
+               "element at the bit-reversed position to each position (against permute_index's Kani-proved contract). The transforms "
+               "themselves rest on a bounded stand-in (native execution of the real code against direct evaluation written in the "
+               "check): FFT evaluation / interpolation with offsets and blowups, degree inference, the column-batched and segmented "
+               "low-degree extension of matrices and Segment::new at every polynomial offset agree with direct polynomial evaluation "
+               "on the enumerated space.",
+    level_note="The butterfly network (fft_in_place) is written with iterator adapters the installed Verus rejects and its correctness "
+               "is an identity over symbolic field values beyond CBMC: stand-in only, bounded as stated in coverage.native_bounded_standins. "
+               "The multi-threaded variants (`concurrent` feature) are not built.",
     explanation=MIX)
 
 PROPS["C17"] = dict(
@@ -114,9 +125,10 @@ PROPS["C17"] = dict(
                "divisors and naively interpolated value polynomials). No deductive contract: the evaluator, periodic table and "
                "boundary groups are generic over a user Air with iterator-heavy bodies, and the statement is an identity over "
                "field values.",
-    level_note="Bounded as stated in coverage.native_bounded_standins: one AIR. The verifier's side (its evaluation from an opened "
-               "frame agrees) is observed by the pipeline stand-ins of C04 (honest proofs pass the OOD consistency check), not here. "
-               "Auxiliary segments and Lagrange kernel constraints are exercised only by those pipelines.",
+    level_note="Bounded as stated in coverage.native_bounded_standins: one AIR per stand-in. The verifier's side (its evaluation from an opened "
+               "frame agrees with the committed polynomial) is observed through the real prover and verifier on a second AIR with periodic "
+               "columns of four cycle lengths and shared boundary-constraint groups (verifier_side_native). "
+               "Auxiliary segments and Lagrange kernel constraints are exercised only by C04's pipelines.",
     explanation=MIX)
 
 NOT_APPLICABLE.update({
